@@ -71,6 +71,13 @@ Proof. rewrite tagtype_eqb_canonical by apply canonical_of_u32. rewrite !roundtr
 Lemma eq_sym_types t i : eq_type_id t i = (u32_of_tagtype t =? u32_of_id i) /\ eq_id_type i t = (u32_of_id i =? u32_of_tagtype t).
 Proof. unfold eq_id_type, eq_type_id. split; [reflexivity|apply N.eqb_sym]. Qed.
 
+Lemma eq_any t i v :
+  eq_type_id t i = (u32_of_tagtype t =? u32_of_id i) /\ eq_id_type i t = (u32_of_id i =? u32_of_tagtype t) /\
+  eq_type_u32 t v = (u32_of_tagtype t =? v) /\ eq_u32_type v t = (u32_of_tagtype t =? v).
+Proof.
+  destruct (eq_sym_types t i) as [A B]. split; [exact A|]. split; [exact B|]. split; reflexivity.
+Qed.
+
 (* ---- memory area types ---- *)
 Ltac bits3 x :=
   destruct x as [|x]; [|
